@@ -1,15 +1,20 @@
 #!/bin/bash
-# usage: build_ir.sh src.cpp out.ll [extra clang flags]
+# usage: [NOINLINE_EXTRA=regex] build_ir.sh src.cpp out.ll [extra clang flags]
 src=$1; out=$2; shift 2
 FLAGS="-std=c++20 -I/repo -DUNODB_DETAIL_WITH_STATS -DUNODB_SPINLOCK_LOOP_VALUE=1 -DNDEBUG -mavx2"
 clang++-14 $FLAGS "$@" -O1 -Xclang -disable-llvm-passes -S -emit-llvm $src -o $out.raw || exit 1
-# tag stub targets noinline so the translator can substitute models by name
 python3 - $out.raw <<'PY'
-import re, sys
-p = sys.argv[1]; t = open(p).read()
-pat = re.compile(r'^(define [^\n]*@_ZN(?:K)?5unodb6detail14basic_node_ptr[^\n(]*(?:7tag_ptr|4typeEv|3ptrI)[^\n]*\)|define [^\n]*@_ZN5unodb15qsbr_per_thread24on_next_epoch_deallocateE[^\n]*\)) ([^\n]*)\{$', re.M)
-t, n = pat.subn(lambda m: m.group(1) + ' noinline ' + m.group(2).replace('alwaysinline', '') + '{', t)
+import re, sys, os
+p = sys.argv[1]; lines = open(p).read().split('\n')
+pats = [r'@_ZN?K?5unodb6detail14basic_node_ptr[^(]*(7tag_ptr|4typeEv|3ptrI)']
+if os.environ.get('NOINLINE_EXTRA'): pats.append(os.environ['NOINLINE_EXTRA'])
+n = 0
+for i, l in enumerate(lines):
+    if l.startswith('define ') and any(re.search(q, l) for q in pats):
+        l2 = re.sub(r'\) (local_unnamed_addr |unnamed_addr )?(#\d+)', lambda m: ') ' + (m.group(1) or '') + 'noinline ' + m.group(2), l, count=1)
+        if l2 == l: l2 = l[:-1] + 'noinline {'
+        lines[i] = l2.replace('alwaysinline', ''); n += 1
 sys.stderr.write('noinline-tagged %d functions\n' % n)
-open(p, 'w').write(t)
+open(p, 'w').write('\n'.join(lines))
 PY
 opt-14 -O1 -vectorize-loops=false -vectorize-slp=false -unroll-threshold=0 -S $out.raw -o $out
